@@ -18,7 +18,7 @@ def run(cx):
     cx.rule("C03.R4", "built-in service: GetInfo replies the configured info; GetInterfaceDescription answers with the named interface's own description, InvalidParameter for unknown interfaces and for missing parameters; anything else MethodNotFound")
     cx.rule("C03.R5", "advertised list: org.varlink.service first, then exactly the keys of the map that call() consults")
     cx.rule("C03.R6", "generated dispatch equals the IDL: for every generated proxy the method strings matched in call() are <interface>.<Method> for exactly the methods of its own description, and get_name() is the description's interface name")
-    r1(cx); r2(cx); r3(cx); r4(cx); r5(cx); r6(cx)
+    r1(cx); r2(cx); r3(cx); r3_emitter(cx); r4(cx); r5(cx); r6(cx)
 
 
 def r1(cx):
@@ -190,6 +190,35 @@ def r3(cx):
         orig, sliced = method_whole(h.body, h.du, t.args[1])
         cx.check(not sliced and not [o for k, o in orig if k == "const" and o.cstr()], "C03.R3", "varlink:handle:interface_not_found#%d" % i, "%s %s" % (t.sp, h.body.path),
                  "the no-dot branch does not name the whole method string", note_ok="names the whole method string")
+
+
+def r3_emitter(cx):
+    """the emitter itself passes what it is given on: in Call::reply_interface_not_found a `Some(name)` argument always ends up in the
+    ErrorInterfaceNotFound payload (no filter, no condition on the text)"""
+    cands = [b for b in cx.mir.bodies("varlink") if b.promoted is None and b.path.endswith("Call::<'a>::reply_interface_not_found") or (b.promoted is None and b.path.endswith("::reply_interface_not_found") and "Call" in b.path and b.kind != "Closure")]
+    if len(cands) != 1: raise AnchorMissing("Call::reply_interface_not_found (%d)" % len(cands))
+    body = cands[0]; cx.saw(body)
+    cfg = Cfg(body); du = DefUse(body)
+    built = {s.bb for s in body.stmts() if s.kind == "assign" and s.rv == "agg" and isinstance(s.agg, dict) and s.agg.get("adt", "").split("::")[-1] == "ErrorInterfaceNotFound"}
+    some = None
+    sl = Slice(body, du)
+    for b in body.blocks:
+        if b.cleanup or b.term.kind != "switch": continue
+        c = switch_cond(body, du, b.term)
+        if c.kind == "discr" and "Option" in body.ty(c.place.l) and any(k == "arg" and o == 2 for k, o in sl.origins(c.place)) and not [k for k, o in sl.origins(c.place) if k == "call"]:
+            some = variant_edge(b.term, 1); break
+    if not built:
+        # built inside a closure handed to a combinator the view does not write out (map_or_else with two closures): not decided here
+        inner = [b for b in body.unit.bodies if b.promoted is None and b.kind == "Closure" and (b.path + "::").startswith(body.path + "::")
+                 and any(s.kind == "assign" and s.rv == "agg" and isinstance(s.agg, dict) and s.agg.get("adt", "").split("::")[-1] == "ErrorInterfaceNotFound" for s in b.stmts())]
+        if inner and not body.calls("=filter", "=take_if", "=and_then", "=then", "=then_some"):
+            cx.note("C03.R3", "varlink:reply_interface_not_found:names-what-it-is-given", body.sp, "payload built in %s, handed to %s: not decided (no filter on the way)" % (inner[0].path.split("::")[-1], sorted({t.callee.name for t in body.calls() if not t.callee.indirect and t.callee.name.startswith("map")})))
+            return
+    good = bool(built) and some is not None and cfg.must_pass_after(some, cfg.returns(), built)
+    # a reply that went out without the payload although a name was given
+    cx.check(good, "C03.R3", "varlink:reply_interface_not_found:names-what-it-is-given", body.sp,
+             "a `Some(interface)` argument does not always reach the ErrorInterfaceNotFound payload (it is filtered or dropped on some path): the error then no longer names the interface",
+             note_ok="Some(name) -> ErrorInterfaceNotFound{interface: Some(name)} on every path")
 
 
 def r4(cx):
